@@ -42,3 +42,8 @@ CORPUS += [
     M("runner-catches-exception", "msmart/cli.py", "    except KeyboardInterrupt:\n        pass\n\n    exit(0)", "    except KeyboardInterrupt:\n        pass\n    except Exception as e:\n        _LOGGER.error(\"Command failed: %s\", e)\n\n    exit(0)"),
     M("n-runner-catches-exception-exit-1", "msmart/cli.py", "    except KeyboardInterrupt:\n        pass\n\n    exit(0)", "    except KeyboardInterrupt:\n        pass\n    except Exception as e:\n        _LOGGER.error(\"Command failed: %s\", e)\n        exit(1)\n\n    exit(0)", "S"),
 ]
+# round 10: growth - apply() adjusts a value on its way into the command
+CORPUS += [
+    M("apply-rounds-target-temperature", "msmart/device/AC/device.py", "        cmd.target_temperature = or_default(self._target_temperature, 25)",
+      "        cmd.target_temperature = float(round(or_default(self._target_temperature, 25)))"),
+]
